@@ -359,6 +359,18 @@ def impl_answer(rd, q, expv, problems):
             tag = -1
             problems.append({"index": int(k), "columns": cols, "error": repr(ex)[:200]})
         out += [int(k), int(tag)]
+    # what is returned belongs to the caller: it may take the result apart; no later read may show that
+    try:
+        for v in list(r.values()):
+            if isinstance(v, dict):
+                v.clear()
+            elif isinstance(v, np.ndarray) and v.size and v.flags.writeable and v.dtype.kind in "iufc":
+                v[...] = 0
+            elif isinstance(v, list):
+                del v[:]
+        r.clear()
+    except Exception:  # noqa
+        pass
     return out
 
 
